@@ -338,6 +338,12 @@ def run(prog, R):
         has_ck = any(c.endswith("HashMap::contains_key") for c in ext_calls)
         no_iter = not any(c.endswith("::next") or c.endswith("::iter") or "Iterator" in c for c in ext_calls)
         R.ob("C19.4-current-scope-only", "current_scope_contains_name cone", has_last and has_ck and no_iter, cscn.at, f"external calls in cone: {sorted(ext_calls)}")
+        # its value is exactly `current_scope().contains_name(name)`: one path, no other scope consulted
+        psn = [p for p in SymExec(prog, cscn).paths() if "__diverged__" not in p.env]
+        rn = strip_transparent(psn[0].env.get(0)) if len(psn) == 1 else None
+        okn = bool(rn) and rn[0] == "call" and rn[1].endswith("contains_name") and strip_transparent(rn[2][0])[0] == "call" and strip_transparent(rn[2][0])[1].endswith("SymbolTable::current_scope") \
+            and strip_transparent(rn[2][1]) == ("arg", 2, "name") and not any(c[0] == "switch" for c in psn[0].conds)
+        R.ob("C19.4-current-scope-only", "current_scope_contains_name == current_scope().contains_name(name)", okn, cscn.at, f"{len(psn)} path(s); value {show(rn)[:100] if rn else None}")
         cs = prog.body(M + "SymbolTable::current_scope")
         if cs:
             ps = [p for p in SymExec(prog, cs).paths() if "__diverged__" not in p.env]
